@@ -60,6 +60,7 @@ func pqFinish(e *Env, p *PQ) {
 		return // file full: C12 territory
 	}
 	p.Drain(-1)
+	p.checkAppData("end of history")
 	if !e.Failed() && p.rdIdx != p.completed() {
 		p.fail("missing-event", "after a final Flush the reader delivered events up to %d, %d events were appended", p.rdIdx, p.completed())
 	}
